@@ -186,6 +186,87 @@ func (p *scriptPool) Peer(ctx context.Context, req pool.PeerRequest) (*pool.Peer
 }
 func (p *scriptPool) Withdraw(ctx context.Context) error { return nil }
 
+// recPool passes every call through to a real pool.Pool (the shipped pool.StaticPool) and records it
+type recPool struct {
+	scriptPool
+	inner pool.Pool
+}
+
+func (p *recPool) Connect(ctx context.Context, req pool.ConnectRequest) (*pool.ConnectResponse, error) {
+	p.mu.Lock()
+	p.rec("connect")
+	p.mu.Unlock()
+	return p.inner.Connect(ctx, req)
+}
+func (p *recPool) Update(ctx context.Context, req pool.UpdateRequest) (*pool.UpdateResponse, error) {
+	p.mu.Lock()
+	p.rec("update:%d", len(req.PeerInfo))
+	p.mu.Unlock()
+	return p.inner.Update(ctx, req)
+}
+func (p *recPool) Peer(ctx context.Context, req pool.PeerRequest) (*pool.PeerResponse, error) {
+	p.mu.Lock()
+	p.rec("peer:%d:%s", req.Num, req.Kind)
+	p.mu.Unlock()
+	return p.inner.Peer(ctx, req)
+}
+
+// staticRounds: the agent pointed at a single enode / a fixed list (pool.StaticPool, `vipnode agent enode://...`):
+// every subset of two static nodes x local peer classes squared x strict on/off x targets, consecutive rounds of one Agent.
+func staticRounds(tr *Trace) {
+	locals := []string{"absent", "A", "B", "loop"}
+	abstract := func(calls []string) []string {
+		abs := []string{}
+		for _, cl := range calls {
+			for i, id := range peerIDs {
+				cl = strings.Replace(cl, id, fmt.Sprintf("p%d", i), -1)
+			}
+			abs = append(abs, cl)
+		}
+		return abs
+	}
+	for _, strict := range []bool{false, true} {
+		for mask := 0; mask < 4; mask++ {
+			node := &recNode{id: strings.Repeat("f", 128), kind: ethnode.Geth}
+			stp := &pool.StaticPool{}
+			static := []bool{mask&1 != 0, mask&2 != 0}
+			for i, in := range static {
+				if in {
+					if err := stp.AddNode("enode://" + peerIDs[i] + "@" + hostOf("A", i)); err != nil {
+						fatal("static pool: %v", err)
+					}
+				}
+			}
+			rp := &recPool{inner: stp}
+			ag := &agent.Agent{EthNode: node, StrictPeers: strict, UpdateInterval: time.Hour}
+			if err := ag.Start(rp); err != nil {
+				fatal("agent start (static pool): %v", err)
+			}
+			tr.emit(J{"ev": "static-start", "c": J{"strict": strict, "static": static}, "node": abstract(node.take()), "pool": rp.take()})
+			for _, l0 := range locals {
+				for _, l1 := range locals {
+					for _, target := range []int{0, 1, 2, 3} {
+						node.peers = nil
+						for i, cls := range []string{l0, l1} {
+							if cls != "absent" {
+								p := ethnode.PeerInfo{ID: peerIDs[i]}
+								p.Network.RemoteAddress = hostOf(cls, i)
+								node.peers = append(node.peers, p)
+							}
+						}
+						ag.NumHosts = target
+						err := ag.UpdatePeers(context.Background(), rp)
+						tr.emit(J{"ev": "static", "c": J{"strict": strict, "static": static, "local": []string{l0, l1}, "target": target},
+							"node": abstract(node.take()), "pool": rp.take(), "err": err != nil})
+					}
+				}
+			}
+			ag.Stop()
+			ag.Wait()
+		}
+	}
+}
+
 var peerIDs = []string{strings.Repeat("a", 128), strings.Repeat("b", 128), strings.Repeat("c", 128)}
 
 func hostOf(class string, i int) string {
@@ -342,6 +423,7 @@ func runAgentTable(args []string) {
 			ag.Wait()
 		}
 	}
+	staticRounds(tr)
 	tr.close()
 	ioutil.WriteFile(statusFile, []byte("OK\n"), 0644)
 }
